@@ -217,11 +217,6 @@ theorem loop2_inv {ff m : Nat} {caps lens : List Nat} {free0 unk : List Bool} (s
       have hs := hsegs seg (List.mem_cons_self)
       exact ih (fun s hs' => hsegs s (List.mem_cons_of_mem _ hs')) (body2_inv h hs.1 hs.2 hb) hl
 
-theorem getElem?_lt_of_some {α} {l : List α} {k : Nat} {x : α} (h : l[k]? = some x) : k < l.length := by
-  by_cases hlt : k < l.length
-  · exact hlt
-  · simp [List.getElem?_eq_none (Nat.le_of_not_lt hlt)] at h
-
 /-- the initial loop state satisfies the invariant -/
 theorem LInv.init (ff m : Nat) (caps lens : List Nat) (free0 unk : List Bool) (cnt : Int)
     (hf : free0.length = ff) (hu : unk.length = m) :
